@@ -6,6 +6,8 @@ export CARGO_NET_OFFLINE=true
 cd "$HERE/harness"
 [ -f Cargo.lock ] || cp "${VERIF_REPO:-/repo}/Cargo.lock" Cargo.lock
 cargo build --release --offline --bin vcheck
+# unoptimised crash probes (run as child processes by C18): built here so that the first quick run does not pay for it
+cargo build --offline --profile probe --bin vprobe || echo "note: vprobe did not build; ./check C18 will rebuild and report"
 # companion binary of C17 (shares the target directory, so dependencies are compiled once)
 cd "$HERE/harness-dyn"
 [ -f Cargo.lock ] || cp "$HERE/harness/Cargo.lock" Cargo.lock
